@@ -50,6 +50,8 @@ def generate(seed, tier):
     gi = progs.Gen(orng, g.cfg)
     n_ops = orng.randint(6, 16 if tier == "quick" else 40)
     subs = sub_object_paths(P, top)
+    # direct non-random sub-objects of the top class (attribute kind "o", not declared rand)
+    nr_objs = [[f["n"]] for f in P.fields(top) if f["k"] == "o" and not f.get("r")]
     for _ in range(n_ops):
         p = orng.randrange(n_parties)
         r = orng.random()
@@ -59,7 +61,12 @@ def generate(seed, tier):
             ops.append({"op": "frand", "targets": [[p, path]], "k": st.lib.randint(0, 1 << 30),
                         "sub": cn})
         elif r < 0.4:
-            ops.append({"op": "randomize", "p": p})
+            op_ = {"op": "randomize", "p": p}
+            if nr_objs and orng.random() < 0.3:
+                # re-entrancy: the top object's pre_randomize itself calls randomize() on one of its
+                # non-random sub-objects (a separate, nested call)
+                op_["reenter"] = orng.choice(nr_objs)
+            ops.append(op_)
         elif r < 0.65:
             inl = progs.strip(gi.stmts(own, 1, lo=1, hi=1)) if own else []
             op = {"op": "rw", "p": p, "inline": inl}
@@ -165,6 +172,16 @@ def execute(rec):
             return
         party, path, cn = info
         ev = {"phase": phase, "party": party, "path": path, "seq": w.log.seq}
+        if cur.get("nested_depth"):
+            # events of a nested call are kept apart: they belong to that call
+            cur["nested"].append({"phase": phase, "party": party, "path": path})
+            if phase == "pre":
+                prng_n = _r.Random(kernel.H(rec["pre_seed"], cur["call"], "n", refsem.path_key(path)))
+                for f in P.fields(cn):
+                    if f["k"] == "s" and not f.get("r"):
+                        dom = refsem.field_domain(P, f)
+                        setattr(obj, f["n"], dom[prng_n.randrange(len(dom))])
+            return
         if phase == "pre":
             # assign scheduler-chosen values to this object's non-random scalar fields
             prng = _r.Random(kernel.H(rec["pre_seed"], cur["call"], refsem.path_key(path)))
@@ -177,6 +194,20 @@ def execute(rec):
                     assigned.append((path + [f["n"]], v))
             ev["assigned"] = assigned
             stats["pre_assignments"] += len(assigned)
+            ro = cur.get("op") or {}
+            if ro.get("reenter") and path == [] and party == ro.get("p"):
+                from vsc.model.solve_failure import SolveFailure
+                tgt = builder.get_path(w.env, obj, ro["reenter"])
+                cur["nested_depth"] = 1
+                cur["nested"] = []
+                try:
+                    tgt.randomize()
+                    cur["nested_st"] = "ok"
+                except SolveFailure:
+                    cur["nested_st"] = "solvefail"
+                finally:
+                    cur["nested_depth"] = 0
+                stats["reentrant_calls"] = stats.get("reentrant_calls", 0) + 1
         else:
             ev["tree"] = w.tree(party)
         cur["events"].append(ev)
@@ -192,7 +223,11 @@ def execute(rec):
             continue
         cur["events"] = []
         cur["call"] = oi
+        cur["op"] = op
+        cur["nested"] = []
+        cur["nested_st"] = None
         out = w.apply(op)
+        cur["op"] = None
         if kind == "new" and out["st"] == "ok":
             p = out["p"]
             pt = w.parties[p]
@@ -236,6 +271,23 @@ def execute(rec):
         if len(expected) >= 2:
             nontrivial = True
         detail = {"op": oi, "kind": kind, "events": [(e["phase"], e.get("path")) for e in events]}
+        if op.get("reenter") and cur["nested_st"] == "ok":
+            # the nested call is a call of its own: exactly one pre and one post on the objects
+            # that are random below its target, and none of it shows up in the enclosing call
+            detail["nested"] = [(e["phase"], e.get("path")) for e in cur["nested"]]
+            nobj = builder.get_path(w.env, pt.obj, op["reenter"])
+            ncls = [cn_ for (pth_, o_, cn_, rc_) in object_paths(P, pt.cname, pt.obj)
+                    if pth_ == list(op["reenter"])][0]
+            nexp = [refsem.path_key(pth_) for (pth_, o_, cn_, rc_) in
+                    object_paths(P, ncls, nobj, base=list(op["reenter"])) if rc_]
+            for ph in ("pre", "post"):
+                gotn = [refsem.path_key(e["path"]) for e in cur["nested"] if e["phase"] == ph]
+                if sorted(gotn) != sorted(nexp):
+                    viol.append({"inv": "C17.count", "cls": "C17.count/nested_call_" + ph,
+                                 "detail": dict(detail, expected=nexp, got=gotn)})
+                    break
+            if viol:
+                break
         # count
         for ph in ("pre", "post"):
             got = [refsem.path_key(e["path"]) for e in events
